@@ -45,7 +45,8 @@ def gen_cases(tier):
     pal = seed() % 3
     ks = (1, 2, 3, 4)
     for k in ks:
-        for inputs in itertools.product(INPUT_OPTS, repeat=k):
+        opts = INPUT_OPTS if (k <= 3 or tier != "quick") else [INPUT_OPTS[i] for i in (0, 1, 2, 6, 10)]
+        for inputs in itertools.product(opts, repeat=k):
             forms = [(False, False, False), (True, True, True)] if tier == "quick" else \
                 [(False, False, False), (True, False, False), (False, True, False), (True, True, True), (False, True, True)]
             for rs_list, rails, by_rail in forms:
@@ -71,8 +72,8 @@ def main(tier):
         for j in list(range(k)) + [None]:
             run.require("selected:%s/%d" % (j, k) in run.classes, "selected index %s of %d never observed" % (j, k))
     return run.finish(
-        rule="E1-mux: all k-tuples (k<=4) over 9 input options (own source | own source+converter | switch off a shared source) x "
-             "(live | 0 V | phase-inactive source | phase-inactive regulator) x rs scalar/list x rails x by-rail attachment, two phases each; "
+        rule="E1-mux: all k-tuples (k<=3; k=4 over 5 of the options in quick, all 11 in thorough) over 11 input options (own source | own source+converter | switch off a shared source | own source+LinReg) x "
+             "(live | 0 V | phase-inactive source | phase-inactive regulator | regulator starved below its drop-out: 0 V but not off) x rs scalar/list x rails x by-rail attachment, two phases each; "
              "oracle: selected = first live (from the case description), Vin/Vout/Iin law with rs[selected], unselected inputs carry only their own load, "
              "Parent/Rail-in/Domain name the selected input, dead subtree when none live. non-trivial = a live input exists after the selected one.",
         assumptions=["inputs up to depth 1 above the mux", "one palette per run (VERIF_SEED)"])
